@@ -321,8 +321,12 @@ func classify(v ssa.Value, env phiEnv, depth int) (valClass, ssa.Value) {
 		}
 	case *ssa.UnOp:
 		// a local variable that lives in memory (a named result next to a defer): the one store that reaches the load
-		if a, ok := x.X.(*ssa.Alloc); ok && x.Op == token.MUL && depth < 3 {
-			if sts := reachingStores(x, a); len(sts) == 1 && sts[0].Parent() == x.Parent() {
+		if a, ok := x.X.(*ssa.Alloc); ok && x.Op == token.MUL && depth < 3 && !classifyingLoad {
+			// (reachingStores searches paths itself: no second level)
+			classifyingLoad = true
+			sts := reachingStores(x, a)
+			classifyingLoad = false
+			if len(sts) == 1 && sts[0].Parent() == x.Parent() {
 				return classify(sts[0].Val, env, depth+1)
 			}
 		}
@@ -336,6 +340,8 @@ func classify(v ssa.Value, env phiEnv, depth int) (valClass, ssa.Value) {
 	}
 	return clsUnknown, v
 }
+
+var classifyingLoad bool
 
 func isErrorType(t types.Type) bool {
 	n := namedOf(t)
